@@ -81,6 +81,7 @@ def run(rep: core.Report):
     rep.rule("R06a", "inverse kernel: generic element of fc is sum_k Re[D_k e^{i phi}] sqrt(m_i m_j') / N with phi = -2 pi q_k.s averaged over the multi shortest vectors of the pair (supercell atom j, primitive atom i); k runs over N = num_satom/num_patom points", 5)
     rep.rule("R06b", "forward kernel: the contribution of supercell atom k to D_ij is fc e^{+2 pi i q.s} averaged over the same shortest vectors, divided by sqrt(m_i m_j): phase, pair addressing and mass factor are the exact counterparts of the inverse kernel", 4)
     rep.rule("R06c", "Python reference of the inverse transform: same phase sign, multiplicity average, mass factor, 1/N and real part; Python reference of the forward transform: e^{+2 pi i q.s}/m/sqrt(mm)", 7)
+    rep.rule("R06e", "history independence of the inverse transform: the kernel accumulates into fc (its own zeroing covers only the compact extent), so run() hands it freshly zeroed force constants on every call", 2)
     rep.rule("R06d", "integer commensurate points: meshgrid over range(D_k) of the Smith normal form, each index scaled by the product of the other two diagonal entries, reduced modulo prod(D)", 3)
     tu = cast.load(DYN, symbolize=("PI",))
     ex = celem.ElemExec(tu, where=DYN, consts={"PI": sp.pi}, null_pointers={"charge_sum"})
@@ -132,6 +133,24 @@ def run(rep: core.Report):
     ok_phase = sp.simplify(s0 - sp.cos(want_th)) == 0 and sp.simplify(-s1 - sp.sin(want_th)) == 0
     rep.instance("R06a", DYN, "transform_dynmat_to_fc_ij", "fc += Re[D_k e^{i phi}] with phi = -2 pi q_k . svecs[adrs + l]  (cos part, sin part)", ok_phase,
                  f"the inverse transform multiplies D_k by (cos, sin) = ({s0}, {-s1}), not by e^{{-2 pi i q_k.s}}: real and imaginary parts or the phase sign are wrong", line=line)
+    # ---- R06e: the result depends on the previous content of fc ------------
+    accumulates = e.has(fcf(sp.expand(idx)))
+    top = tu.functions.get("dym_transform_dynmat_to_fc")
+    zero_ext = None
+    for x in cast.walk(top):
+        if x.get("kind") == "ForStmt" and any(y.get("kind") == "BinaryOperator" and y.get("opcode") == "=" and cast.text(cast.kids(y)[0]).startswith("fc[") and cast.text(cast.kids(y)[1]) == "0" for y in cast.walk(x)):
+            real = [y for y in x.get("inner", []) if isinstance(y, dict) and y.get("kind")]
+            zero_ext = cast.text(cast.kids(real[-3])[1]) if len(real) >= 4 else None
+    rep.instance("R06e", DYN, "dym_transform_dynmat_to_fc", f"kernel element = old fc + sum (accumulates: {accumulates}); the kernel itself zeroes {zero_ext} leading values", True, "", line=tu.line(top), nontrivial=False)
+    runf = core.find_def(D2F, "DynmatToForceConstants.run")
+    calls = [k_ for k_, st in enumerate(runf.body) if any(isinstance(c, ast.Call) and core.src(c.func) in ("self._inverse_transformation", "self._c_inverse_transformation", "self._py_inverse_transformation") for c in ast.walk(st))]
+    if not calls:
+        raise AnalysisError("R06e: DynmatToForceConstants.run no longer calls the inverse transformation")
+    fresh = [k_ for k_, st in enumerate(runf.body) if isinstance(st, ast.Assign) and core.src(st.targets[0]) == "self._fc" and isinstance(st.value, ast.Call) and core.src(st.value.func) in ("np.zeros", "np.zeros_like")]
+    cond_alloc = [st for st in ast.walk(runf) if isinstance(st, ast.Assign) and core.src(st.targets[0]) == "self._fc" and st not in runf.body]
+    ok_fresh = (not accumulates) or (bool(fresh) and min(fresh) < min(calls))
+    rep.instance("R06e", D2F, "DynmatToForceConstants.run", "self._fc = np.zeros(...) unconditionally before the inverse transformation", ok_fresh,
+                 ("the force-constant buffer is " + ("allocated only on some paths" if cond_alloc else "not re-zeroed") + " before the kernel accumulates into it: the kernel zeroes only the compact extent and the translation step (+=) assumes zero rows, so a second run() of the same object with new dynamical matrices returns force constants polluted by the first run (full layout)"), line=runf.lineno)
     # ---- forward ----------------------------------------------------------
     sre, sim, lvf = forward_kernel(rep, "R06b", tu, ex)
     # counterpart: the inverse factor at (q_k; supercell atom j) is the complex conjugate of the forward factor at q = q_k, k := j
@@ -214,6 +233,7 @@ def selftest():
     b("forward phase without multiplicity average", DYN, "        cos_phase += cos(phase * 2 * PI) / m_pair;", "        cos_phase += cos(phase * 2 * PI);", "R06b", "get_dm")
     b("python inverse phase sign", D2F, "        phases = -2j * np.pi * np.dot(self._commensurate_points, pos.T)", "        phases = 2j * np.pi * np.dot(self._commensurate_points, pos.T)", "R06c", "_sum_q")
     b("integer points: index scaled by its own D", D2F, "            a.ravel() * D[1] * D[2], b.ravel() * D[0] * D[2], c.ravel() * D[0] * D[1]", "            a.ravel() * D[0] * D[2], b.ravel() * D[0] * D[2], c.ravel() * D[0] * D[1]", "R06d", "column")
+    b("force-constant buffer allocated once", D2F, "        self._fc = np.zeros(self._fc_shape, dtype=\"double\", order=\"C\")\n        self._inverse_transformation(lang=lang)", "        if self._fc is None:\n            self._fc = np.zeros(self._fc_shape, dtype=\"double\", order=\"C\")\n        self._inverse_transformation(lang=lang)", "R06e", "run")
     n("inverse coefficient reordered", DYN, "                    (dm[adrs][0] * cos_phase - dm[adrs][1] * sin_phase) * coef;", "                    coef * (cos_phase * dm[adrs][0] - sin_phase * dm[adrs][1]);")
     n("python inverse coefficient reordered", D2F, "                coef = np.sqrt(m[p_i] * m[p_j]) / N", "                coef = np.sqrt(m[p_j] * m[p_i]) / N")
     return V
